@@ -113,4 +113,74 @@ theorem fasta_bytes_gt_counter :
       [(['b', ' ', 'c'], ['A', 'C', 'G', 'T'])] := by
   decide
 
+/-- **With the repaired record splitter** (`fixes/C06-fasta-bytes-gt.patch`: split only at a `>`
+that starts a line) the three parsers agree for *every* well-formed label, `>` included. The
+harness decides on every run which of the two splitters the code under test corresponds to. -/
+theorem fasta_parsers_agree_repaired (recs : List (Str × List Str)) (hne : recs ≠ [])
+    (hwf : WfRecs ['>'] recs) (hlow : ∀ r ∈ recs, noLower r.2.flatten = true) :
+    fastaStrict (fastaFormat recs) = .ok (fastaBytesLS (fastaFormat recs)) ∧
+    fastaFaster (fastaFormat recs) = fastaBytesLS (fastaFormat recs) ∧
+    fastaBytesLS (fastaFormat recs) = expected recs := by
+  have hb : fastaBytesLS (fastaFormat recs) = expected recs := by
+    rw [fastaFormat_eq]; exact fastaBytesLS_recs recs hwf hlow
+  have := fasta_roundtrip recs hwf
+  rw [hb]
+  exact ⟨this.2 hne, this.1, rfl⟩
+
+example : fastaBytesLS (fastaFormat [(['a', '>', 'b', ' ', 'c'], [['A', 'C', 'G', 'T']])]) =
+    [(['a', '>', 'b', ' ', 'c'], ['A', 'C', 'G', 'T'])] := by decide
+
+/-- **GDE round-trip** for every block size ≥ 1: `MinimalGdeParser` (label characters `%#`, strict
+and non-strict) applied to what `GDEFormatter.format` writes returns the records. -/
+theorem gde_roundtrip (bs : Nat) (hbs : 0 < bs) (recs : List Rec) (hne : recs ≠ [])
+    (hwf : ∀ r ∈ recs, wfName r.1 = true ∧ wfSeq ['%', '#'] r.2 = true) :
+    gdeStrict (gdeFormat bs recs) = .ok recs ∧
+    fasterParser ['%', '#'] (pySplitlines (gdeFormat bs recs)) = recs := by
+  have hw := blocked_wf hbs hwf
+  have hl := pySplitlines_unlines (recLines_noBreak (l0 := '%') (by decide) hw)
+  unfold gdeStrict
+  rw [gdeFormat_eq hbs recs (fun r hr => (hwf r hr).2), hl]
+  have hne' : blocked bs recs ≠ [] := by simpa [blocked] using hne
+  rw [strictParser_recs (by decide) (by decide) _ hne' hw, fasterParser_recs (by decide) _ hw,
+    expected_blocked hbs]
+  exact ⟨rfl, rfl⟩
+
+example : (∀ r ∈ [(['s', '>', '1'], ['A', 'C', 'G', 'T', 'A']), (['t', ' ', '2'], ['A', '-', 'G', 'T', '?'])],
+    wfName r.1 = true ∧ wfSeq ['%', '#'] r.2 = true) := by decide
+
+/-- **PAML round-trip** for every block size ≥ 1: every alignment (all sequences of one length
+`L ≥ 1`, upper case — the parser upper-cases) written by `PamlFormatter.format` is parsed back
+by `PamlParser` to exactly the same names, order and sequences. -/
+theorem paml_roundtrip (bs : Nat) (hbs : 0 < bs) (recs : List Rec) (hne : recs ≠ []) (L : Nat)
+    (hwf : ∀ r ∈ recs, wfName r.1 = true ∧ wfSeq [] r.2 = true ∧ noLower r.2 = true ∧ r.2.length = L) :
+    ∃ text, pamlFormat bs recs = .ok text ∧ pamlParse text = .ok recs :=
+  paml_roundtrip' hbs recs hne L hwf
+
+example : (∀ r ∈ [(['s', ' ', '1', '>'], ['A', 'C', 'G', 'T', '-']), (['l', 'o', 'n', 'g', 'e', 'r', '_', 'n', 'a', 'm', 'e'],
+    ['A', '?', 'G', 'T', 'N'])], wfName r.1 = true ∧ wfSeq [] r.2 = true ∧ noLower r.2 = true ∧ r.2.length = 5) := by decide
+example : pamlFormat 2 [(['s'], ['A', 'C', 'G'])] =
+    .ok ['1', ' ', ' ', '3', '\n', 's', '\n', 'A', 'C', '\n', 'G', '\n'] := by decide
+
+/-- **PHYLIP round-trip** for every block size ≥ 1: every alignment written by
+`PhylipFormatter.format` is parsed back by `MinimalPhylipParser` to the same order and sequences
+and to the names cut to the documented 9 characters (`truncName`: trailing blanks of the cut
+name are indistinguishable from the column padding). Distinctness of the cut names is the
+caller's business (the parser does not need it). -/
+theorem phylip_roundtrip (bs : Nat) (hbs : 0 < bs) (recs : List Rec) (hne : recs ≠ []) (L : Nat)
+    (hwf : ∀ r ∈ recs, wfName r.1 = true ∧ wfSeq [] r.2 = true ∧ r.2.length = L) :
+    ∃ text, phylipFormat bs recs = .ok text ∧
+      phylipParse text = .ok (recs.map (fun r => (truncName r.1, r.2))) :=
+  phylip_roundtrip' hbs recs hne L hwf
+
+/-- names of at most 9 characters survive PHYLIP exactly -/
+theorem phylip_short_names_exact (n : Str) (hn : wfName n = true) (hl : n.length ≤ 9) : truncName n = n :=
+  truncName_short hn hl
+
+example : truncName ['a', 'b', 'c', 'd', 'e', 'f', 'g', 'h', 'i'] = ['a', 'b', 'c', 'd', 'e', 'f', 'g', 'h', 'i'] ∧
+    truncName ['a', 'b', 'c', 'd', 'e', 'f', 'g', 'h', 'i', 'j'] = ['a', 'b', 'c', 'd', 'e', 'f', 'g', 'h', 'i'] ∧
+    truncName ['a', 'b', 'c', 'd', 'e', 'f', 'g', 'h', ' ', 'j', 'k'] = ['a', 'b', 'c', 'd', 'e', 'f', 'g', 'h'] := by decide
+example : phylipFormat 2 [(['a', 'b', 'c', 'd', 'e', 'f', 'g', 'h', 'i', 'j', 'k'], ['A', 'C', 'G'])] =
+    .ok (['1', ' ', ' ', '3', '\n'] ++ ['a', 'b', 'c', 'd', 'e', 'f', 'g', 'h', 'i', ' ', 'A', 'C', '\n'] ++
+      [' ', ' ', ' ', ' ', ' ', ' ', ' ', ' ', ' ', ' ', 'G', '\n']) := by decide
+
 end CogentModel.C06
